@@ -113,6 +113,24 @@ def run(ctx, rep):
                         # the bound test compares the (unsigned) index with a count and leads to an IndexError return
                         info['bound'] = u
                         info['bound_op'] = c[1]
+        if info['bound'] is None:
+            # the bound test may be the predicate of an `Option::filter(|&p| p < count)` on the converted position: the count it
+            # compares with is what the closure was built with
+            for b, t in fn.calls():
+                if callee_name(t).endswith('Option::<T>::filter') and len(t['args']) == 2:
+                    d = fn.def_rvalue(t['args'][1])
+                    if d and d[0] == 'assign' and d[3]['k'] == 'aggregate' and d[3].get('closure'):
+                        cc = c05.closure_comparison(F, d[3]['closure'])
+                        if cc:
+                            op_, l_, r_ = cc
+                            cap = r_ if l_ == 'arg' else l_
+                            strict = (l_ == 'arg' and op_ == 'Lt') or (r_ == 'arg' and op_ == 'Gt')
+                            if isinstance(cap, tuple) and strict and cap[1] < len(d[3]['ops']):
+                                other = sym(fn, d[3]['ops'][cap[1]])
+                                u = unit_of(other) or resolve_unit(fn, other) or unit_of(psc.unref(other)) or resolve_unit(fn, psc.unref(other))
+                                if u:
+                                    info['bound'] = u
+                                    info['bound_op'] = 'Lt'
         for b, t in fn.calls():
             n = callee_name(t)
             if psc.is_index_call(n):
